@@ -327,6 +327,13 @@ def _guard(c, rec):
     fr = [f for f in traceback.extract_tb(e.__traceback__) if "/precondition/" in f.filename]
     if not fr:
       raise
+    if c["fn"] == "insitu":
+      # the real optimizer may reject a configuration explicitly (e.g. "all layers are too small for compression_rank")
+      from vmon import dsharness as H
+      kind, where = H.classify_exception(e)
+      if kind == "reject":
+        rec.skip("rejected:" + where)
+        return
     rec.violation("crash:%s@%s" % (type(e).__name__, fr[-1].name), "%s in %s: %s" % (type(e).__name__, fr[-1].name, str(e)[:200]), c)
 
 
